@@ -31,13 +31,13 @@ func (C01) Gen(rt *rapid.T, tier string) any {
 	if len(cfg.PathsToExtract) > 0 {
 		// a requested path that does not exist is legal input; the other requested paths must
 		// still be served
-		if rapid.IntRange(0, 5).Draw(rt, "missingpath") == 0 {
+		if rapid.IntRange(0, 5).Draw(rt, "missingpath") == 5 {
 			at := rapid.IntRange(0, len(cfg.PathsToExtract)).Draw(rt, "missingpath.at")
 			ps := append([]string(nil), cfg.PathsToExtract[:at]...)
 			ps = append(ps, "no/such/path")
 			cfg.PathsToExtract = append(ps, cfg.PathsToExtract[at:]...)
 		}
-	} else if len(cfg.DirsToSkip) == 0 && rapid.IntRange(0, 4).Draw(rt, "tworoots") == 0 {
+	} else if len(cfg.DirsToSkip) == 0 && rapid.IntRange(0, 4).Draw(rt, "tworoots") == 4 {
 		// "per scan root": a second root whose relative paths may coincide with the first's
 		t2 := genTree(rt, TreeOpts{MaxNodes: 8, MaxDepth: 3, Symlinks: true, Specials: true, Gitignore: true}, "t2")
 		r2 := RootSpec{Tree: t2}
